@@ -54,15 +54,17 @@ class Harness:
 
 
 def parse_kernel(path):
-    txt = open(path).read(); hs = []; tags = {'flags': [], 'models': [], 'noubsan': False, 'exttempl': True, 'unity': [], 'stubs': []}
+    txt = open(path).read(); hs = []; tags = {'flags': [], 'nflags': [], 'models': [], 'noubsan': False, 'exttempl': True, 'unity': [], 'stubs': []}
     for l in txt.split('\n'):
         m = re.match(r'\s*//@(\w+)\s*(.*)$', l)
         if not m: continue
         k, rest = m.group(1), m.group(2).strip()
         if k == 'flags': tags['flags'] += rest.split()
+        elif k == 'native_flags': tags['nflags'] += rest.split()  # extra flags for the native replay build only
         elif k == 'models': tags['models'] += rest.split()
         elif k == 'unity': tags['unity'] += rest.split()
         elif k == 'stub': tags['stubs'].append(rest.split())
+        elif k == 'probe': tags['stubs'].append([rest.split()[0], '+' + rest.split()[1]])  # '+': call TARGET() on entry, then the real function
         elif k == 'noubsan': tags['noubsan'] = True
         elif k == 'keep_extern_templates': tags['exttempl'] = False
         elif k == 'property': tags['property'] = rest
@@ -116,7 +118,7 @@ def build_tu(path, tags, names, bdir):
         f.write('}\nextern verif_entry const verif_harnesses[];\nverif_entry const verif_harnesses[] = {\n')
         for n in names: f.write('  {"%s", &%s},\n' % (n, n))
         f.write('  {nullptr, nullptr}};\n')
-    gx = GXX_BASE + flags + [path, mainp, os.path.join(VERIF, 'replay', 'vrt.cpp'), '-o', binp, '-lpthread']
+    gx = GXX_BASE + flags + tags['nflags'] + [path, mainp, os.path.join(VERIF, 'replay', 'vrt.cpp'), '-o', binp, '-lpthread']
     return (cl, ll), (gx, binp)
 
 
@@ -151,7 +153,8 @@ def worker(job):
     t0 = time.time()
     ex = irsym.Exec(mods, lim, params, None, [t for t in opts.get('throws', '').split(',') if t], opts.get('leak') == '1')
     ex.known = known
-    ex.redirects = [(re.compile(a), b) for a, b in stubs]
+    ex.redirects = [(re.compile(a), b) for a, b in stubs if not b.startswith('+')]
+    ex.probes = [(re.compile(a), b[1:]) for a, b in stubs if b.startswith('+')]
     r = {'harness': name, 'params': params}
     try:
         if name not in ex.fn_of: raise irsym.Inconclusive('harness %s not found in IR' % name)
@@ -178,7 +181,13 @@ def write_replay(path, harness, params, inputs, uf):
             for args, val in tab.get('entries', []): f.write('ufe %s %d %s %d\n' % (key, len(args), ' '.join(str(a) for a in args), val))
 
 
-def run_native(binp, harness, replay, timeout=10):
+def run_native(binp, harness, replay, timeout=10, retries=0):
+    # retries: a sample replay that is expected to finish is re-run with a longer timeout before a timeout is believed
+    # (ASan/LSan start-up can stall for seconds on an oversubscribed machine)
+    for attempt in range(retries):
+        r = run_native(binp, harness, replay, timeout * (1 + 2 * attempt))
+        if r['end'] != 'timeout': return r
+    if retries: timeout = timeout * (1 + 2 * retries)
     env = dict(os.environ); env['ASAN_OPTIONS'] = 'detect_leaks=1:abort_on_error=0:exitcode=42:allocator_may_return_null=1'; env['UBSAN_OPTIONS'] = 'print_stacktrace=0:halt_on_error=1:exitcode=43'
     try:
         p = subprocess.run([binp, harness, replay], stdout=subprocess.PIPE, stderr=subprocess.PIPE, timeout=timeout, env=env)
@@ -294,7 +303,7 @@ def main():
         rnd2 = random.Random(seed * 7919 + i); rnd2.shuffle(smp)
         for k, sm in enumerate(smp[:int(h.opts.get('validate', 4))]):
             rp = os.path.join(rdir, '%s-%s-sample%d.replay' % (prop, h.key, k)); write_replay(rp, h.name, h.params, sm['inputs'], sm.get('uf'))
-            nat = run_native(binp, h.name, rp, timeout=max(90, int(h.opts.get('hang_s', 10))))  # terminating path: generous, the machine may be loaded
+            nat = run_native(binp, h.name, rp, timeout=max(30, int(h.opts.get('hang_s', 10))), retries=1)  # terminating path: generous, the machine may be loaded
             exp_end = 'done' if sm['end'] == 'done' else sm['end']
             ok = (nat['end'] == 'done' and sm['end'] == 'done' and nat['out'] == [[t, v] for t, v in sm['out']] and nat['reach'] == sm['reach']) or \
                  (sm['end'].startswith('throw:') and nat['end'].startswith('terminate:'))
